@@ -108,6 +108,24 @@ func TestC03Layout(t *testing.T) {
 			fail("raw id %d != %d", zero.ID, ti.msg.GetID())
 		}
 	}
+	// sizes: a definition that cannot fit a frame is refused, it is not given a smaller size
+	for _, o := range Oversize {
+		rw := &message.ReadWriter{Message: o.Msg}
+		if err := rw.Initialize(); err == nil {
+			raw, werr := safeWrite(rw, o.Msg, false)
+			got := "Write failed"
+			if werr == nil && raw != nil {
+				got = fmt.Sprintf("v1 payload of %d bytes", len(raw.Payload))
+			}
+			msg := fmt.Sprintf("%T (%s: %d payload bytes, more than a frame can carry) was accepted by Initialize (%s)", o.Msg, o.Desc, o.Bytes, got)
+			evid.ReplayNote("C03", "TestC03Layout", msg)
+			t.Fatalf("%s", msg)
+		}
+		rec.Class("oversize-single-array-refused", 1)
+	}
+	if len(Oversize) == 0 {
+		t.Fatalf("BROKEN: no oversize definitions generated")
+	}
 	rec.Class("user-struct-with-int16/int64-enum-refused-at-initialization", int64(refusedUsers))
 	rec.Class("user-struct-with-int16/int64-enum-accepted-and-checked", int64(acceptedRare))
 	if refusedUsers+acceptedRare == 0 {
